@@ -23,7 +23,13 @@ def run(P, rep, tier):
         for f in fs:
             if f not in u.functions:
                 raise AnalysisBroken('anchor function %s vanished from %s' % (f, un))
-    rep.explanation = ('Counting and provenance invariants of source positions. The byte loops of tokenize.c are verified per generic '
+    rep.explanation = ('Counting and provenance invariants of source positions. The counting laws are stated over whatever computes File.contents and Token.line_no, found by what it does: '
+                       'the loop that compares bytes with CR among the functions tokenize_file runs before tokenising (a filter in place, or a loop over the pieces fread/fgets/read hand over, '
+                       'where a byte beyond the end of a piece has not been looked at and a CR decided there without anything carried to the next piece is a violation); '
+                       'the function that stores a computed Token.line_no for tokenize() -- a pass over the contents, or a counter kept while tokenize() scans, in which case one generic iteration '
+                       'of the scanning loop is explored (file-scope variables it assigns are symbols too; character classes, strncmp/strstr/strchr on the buffer are modelled; a region the scan pointer '
+                       'jumps over after a search without any byte of it having been looked at, with the counter changed by a constant, is a violation; loops inside an iteration are followed for one generic iteration). '
+                       'The byte loops of tokenize.c are verified per generic '
                        'iteration (loop cut at its head, every assigned variable replaced by a symbol, inner counting loops summarised), '
                        'which proves the per-iteration law for inputs of any length; __LINE__/__FILE__/#line/synthesised tokens are '
                        'decided by abstract interpretation of the handlers on lazy tokens; writers of Token.line_no by who-may-write over all units; '
@@ -39,6 +45,9 @@ def run(P, rep, tier):
                        'Not decided: positions for all inputs end to end.')
     rep.assumptions += ['the output cursor of an in-place filter never overtakes its input cursor (reads see unmodified input)',
                         'no token starts at a newline character', 'calloc succeeds',
+                        'R18.3 with a running counter: the spelling of a token contains no newline; a function that scans a token (returns Token *, first parameter the start) returns a token that starts there, '
+                        'built by the token constructor; bytes are classified as in the C locale',
+                        'R18.2 on a file read in pieces: fread/fgets/read may end a piece after any byte',
                         'R18.9: the `#` that introduces a directive is a TK_PUNCT token; the end-of-input token lies behind the last line (read_file terminates the last line with a newline) '
                         'and has no spelling; a token that begins a line (at_bol) and is reached from the `#` through next is on a later line']
     from .. import lib_c18b
@@ -47,6 +56,8 @@ def run(P, rep, tier):
             f(*args)
         except AnalysisBroken as e:      # includes Unsupported: this rule cannot be decided, the others still are
             rep.undecided(rule, 'engine:%s' % f.__name__, 'the analysis cannot interpret a construct this rule needs: %s' % e)
+        except (KeyError, TypeError, AttributeError, IndexError, ValueError) as e:      # a shape the rule's decoding did not foresee: undecided, never a verdict
+            rep.undecided(rule, 'engine:%s' % f.__name__, 'the analysis met a shape it does not understand (%s: %s)' % (type(e).__name__, e))
 
 
 # ------------------------------------------------------------------------------------------
@@ -252,6 +263,9 @@ def r181(P, u, rep):
                 rep.undecided('R18.1', base + ':shape', 'read cursor advance of an iteration is not a positive constant (%r)' % (dr,), where=W)
                 continue
             consumed = [Term('byte', ladd(rb, k)) for k in range(dr)]
+            if any(known_byte(ctx, b) == 13 for b in consumed):
+                rep.undecided('R18.1', base + ':shape', 'the splice loop also handles CR: an iteration that consumes a CR is a line end of its own kind, the newline balance of this rule does not cover it', where=W)
+                continue
             cnl = 0
             for b in consumed:
                 cnl = ladd(cnl, isnl(ctx, b))
@@ -294,6 +308,15 @@ def r181(P, u, rep):
             n_exit += 1          # the loop works on one piece of the file: what is pending is carried to the next piece, the end of the file is not seen here
             rep.ob('R18.1', base + ':nothing-written-at-the-end-of-a-piece', not wr and isinstance(dn, int) and dn == 0,
                    'leaving the loop over a piece of the file writes %r and changes the pending counter by %s' % ([w[2] for w in wr], dn), where=W, facts=facts)
+            # what is pending when a piece ends must reach the next piece: the counter has to outlive the loop over the pieces
+            outer = loop
+            for a in loop.ancestors():
+                if a.kind in ('ForStmt', 'WhileStmt', 'DoStmt'):
+                    outer = a
+            local = any(d.kind == 'VarDecl' and d.name == pend and d.d.get('storageClass') != 'static' for d in outer.walk())
+            rep.ob('R18.1', base + ':pending-survives-the-end-of-a-piece', (not local) or pinned(ctx, n1) == 0,
+                   'the pending counter %s is declared inside the loop over the pieces of the file and may be %s when a piece ends: the newlines removed from a logical line that '
+                   'continues in the next piece are lost, every later line of the file is numbered too low' % (pend, n1), where=W, facts=facts)
         else:
             n_exit += 1
             resid = lsub(lsub(0, wnl), dn)
